@@ -277,16 +277,17 @@ func runCmpLevels(c *Ctx, r *RuleRun) {
 						r.Check(lv == s.level, fn, "unlinked from the level of the set", p.Pos(instrPos(cl)), "elements of level "+s.level+" are removed from the list of level "+s.level,
 							"an element selected by "+s.what+" (level "+s.level+") is removed from the list of level "+lv+": container/list ignores the call and the table stays linked while its file is deleted")
 					}
-				case fr != nil && fr.site != nil:
-					// inside a helper only the uses of table sets matter
 				case g != nil && p.InModule(g) && g.Pkg == f.Pkg && depth < 2 && !isElemSlice(cl.Type()) && g != build && passesSet(cl, func(v ssa.Value) bool { return setOf(v) != nil }):
+					visit(g, &frame{g, cl, fr}, depth+1)
+				case g != nil && p.InModule(g) && g.Pkg == f.Pkg && depth < 2 && !isElemSlice(cl.Type()) && len(callsTo(p, g, build)) > 0:
+					// a helper that builds the output table: its uses of the level it is handed count as the caller's
 					visit(g, &frame{g, cl, fr}, depth+1)
 				case g == build:
 					outLevels = append(outLevels, struct {
 						nf   string
 						what string
 						pos  token.Pos
-					}{o.nf(cl.Call.Args[len(cl.Call.Args)-1]), "table.Build", instrPos(cl)})
+					}{lvl(cl.Call.Args[len(cl.Call.Args)-1]), "table.Build", instrPos(cl)})
 				case obj != nil && funcIs(obj, "container/list", "List", "PushBack"), obj != nil && funcIs(obj, "container/list", "List", "PushFront"):
 					if u, ok := cl.Call.Args[0].(*ssa.UnOp); ok {
 						if ia, ok := u.X.(*ssa.IndexAddr); ok && isLoadOfField(ia.X, levels) {
@@ -294,7 +295,7 @@ func runCmpLevels(c *Ctx, r *RuleRun) {
 								nf   string
 								what string
 								pos  token.Pos
-							}{o.nf(ia.Index), "list insert", instrPos(cl)})
+							}{lvl(ia.Index), "list insert", instrPos(cl)})
 						}
 					}
 				case g != nil && p.InModule(g) && p.recvIs(g, "levelManager") && g != fetch && !isElemSlice(cl.Type()):
@@ -306,7 +307,7 @@ func runCmpLevels(c *Ctx, r *RuleRun) {
 									nf   string
 									what string
 									pos  token.Pos
-								}{o.nf(cl.Call.Args[1]), g.Name(), instrPos(cl)})
+								}{lvl(cl.Call.Args[1]), g.Name(), instrPos(cl)})
 							}
 						}
 					}
@@ -346,6 +347,28 @@ func runCmpLevels(c *Ctx, r *RuleRun) {
 				tval = cl.Call.Args[len(cl.Call.Args)-1]
 			}
 		})
+		if tval == nil {
+			// table.Build is called in a helper: the level the compactor hands to that helper
+			eachInstr(f, func(ins ssa.Instruction) {
+				cl, ok := ins.(*ssa.Call)
+				if !ok {
+					return
+				}
+				g := cl.Call.StaticCallee()
+				if g == nil || g.Pkg != f.Pkg {
+					return
+				}
+				for _, bc := range callsTo(p, g, build) {
+					if pr, ok := unconv(bc.Call.Args[len(bc.Call.Args)-1]).(*ssa.Parameter); ok {
+						for i, q := range g.Params {
+							if q == pr && i < len(cl.Call.Args) {
+								tval = cl.Call.Args[i]
+							}
+						}
+					}
+				}
+			})
+		}
 		tl := linearOf(tval, levels)
 		var grow *ssa.Store
 		for _, st := range storesToField(f, levels) {
@@ -592,14 +615,47 @@ func runCmpRange(c *Ctx, r *RuleRun) {
 		return
 	}
 	// first/last key of an index: Entries[0].StartKey / Entries[len(Entries)-1].EndKey
-	boundKey := func(v ssa.Value) string {
+	var boundKey func(v ssa.Value) string
+	boundKey = func(v ssa.Value) string {
 		v = stripValue(v)
+		// the first/last key handed out by a helper (`currStart, currEnd := tableRange(e)`): what every return of the
+		// helper puts into that result
+		{
+			var call *ssa.Call
+			idx := 0
+			if ex, ok := v.(*ssa.Extract); ok {
+				call, _ = ex.Tuple.(*ssa.Call)
+				idx = ex.Index
+			} else if cl, ok := v.(*ssa.Call); ok {
+				call = cl
+			}
+			if call != nil {
+				g := call.Call.StaticCallee()
+				if g == nil || !p.InModule(g) || len(g.Blocks) == 0 || g == parseKey {
+					return ""
+				}
+				res := ""
+				for _, b := range g.Blocks {
+					ret, ok := b.Instrs[len(b.Instrs)-1].(*ssa.Return)
+					if !ok || b == g.Recover || idx >= len(ret.Results) {
+						continue
+					}
+					k := boundKey(ret.Results[idx])
+					if res != "" && k != res {
+						return "other"
+					}
+					res = k
+				}
+				return res
+			}
+		}
 		fv, base := loadedField(v)
 		if fv != startF && fv != endF {
 			return ""
 		}
 		var idx ssa.Value
 		var cont ssa.Value
+		base = singleStore(base)
 		switch b := base.(type) {
 		case *ssa.IndexAddr:
 			idx, cont = b.Index, b.X
@@ -765,6 +821,43 @@ func runCmpRange(c *Ctx, r *RuleRun) {
 			r.Check(okAll, fn, "every table of the level is selected", p.Pos(f.Pos()), "each visited element is appended", "a selector without key bounds does not append every element it visits: tables stay behind in the level although all of them have to be merged")
 		}
 	}
+	// a selection of L0 tables written out in the compactor itself: every element the walk visits is appended
+	if fetch := p.FnOr("", "levelManager", "fetch"); fetch != nil {
+		for _, cf := range compactors(c) {
+			for _, fs := range fetchSitesOf(p, cf, fetch) {
+				if k, ok := constInt(fs.Level); !ok || k != 0 {
+					continue
+				}
+				appends, _, _ := inlineSelection(p, cf, fs.Set)
+				for _, ap := range appends {
+					var walk *natLoop
+					for _, lp := range naturalLoops(cf) {
+						lp := lp
+						if lp.body[ap.Block()] && (walk == nil || len(lp.body) < len(walk.body)) {
+							walk = &lp
+						}
+					}
+					if walk == nil {
+						continue
+					}
+					var body *ssa.BasicBlock
+					for _, sb := range walk.header.Succs {
+						if walk.body[sb] {
+							body = sb
+						}
+					}
+					okAll := body != nil
+					if body != nil {
+						q := PathQuery{P: p, Fn: cf, Starts: []ssa.Instruction{walk.header.Instrs[len(walk.header.Instrs)-1]},
+							EdgeOK: func(bb *ssa.BasicBlock, i int) bool { return bb != walk.header || bb.Succs[i] == body },
+							Avoid:  func(i ssa.Instruction) bool { return i == ssa.Instruction(ap) }, Target: func(i ssa.Instruction) bool { return i.Block() == walk.header && instrIndex(i) == 0 }}
+						okAll = q.FindPath() == nil
+					}
+					r.Check(okAll, p.FnName(cf), "every table of the level is selected", p.Pos(instrPos(ap)), "each visited element is appended", "a selector without key bounds does not append every element it visits: tables stay behind in the level although all of them have to be merged")
+				}
+			}
+		}
+	}
 	// 2. boundary: a function returning two strings computed over list elements
 	nB := 0
 	for _, f := range p.Funcs {
@@ -803,7 +896,7 @@ func runCmpRange(c *Ctx, r *RuleRun) {
 						if boundKey(e) != want.key {
 							good, why = false, "does not start from the "+want.key+" key of the first input"
 						}
-						first := derivesFrom(e, func(x ssa.Value) bool {
+						elem0 := func(x ssa.Value) bool {
 							ia, ok := x.(*ssa.IndexAddr)
 							if !ok {
 								return false
@@ -811,7 +904,24 @@ func runCmpRange(c *Ctx, r *RuleRun) {
 							_, isParam := ia.X.(*ssa.Parameter)
 							k, isK := constInt(ia.Index)
 							return isParam && isK && k == 0
-						})
+						}
+						first := derivesFrom(e, elem0)
+						if !first {
+							// the key comes out of a helper that is handed element 0
+							var call *ssa.Call
+							if ex, ok := stripValue(e).(*ssa.Extract); ok {
+								call, _ = ex.Tuple.(*ssa.Call)
+							} else {
+								call, _ = stripValue(e).(*ssa.Call)
+							}
+							if call != nil && call.Call.StaticCallee() != nil && p.InModule(call.Call.StaticCallee()) {
+								for _, arg := range call.Call.Args {
+									if derivesFrom(arg, elem0) {
+										first = true
+									}
+								}
+							}
+						}
 						if !first {
 							good, why = false, "does not start from the first input (element 0 of the inputs)"
 						}
